@@ -37,7 +37,7 @@ META = {
     'functions_encoded': ['numdifftools.extrapolation.dea3', 'numdifftools.extrapolation.max_abs'],
     'bounds': {
         'quick': 'arrays of 3 elements (shape (3,)) and shape (2,2); geometric box |L|,|a|<=1e15, |a|>=1e-15, 1/50<=|q|<=50, '
-                 '|q-1|>=1/50; IEEE totality at float32 (eps/tiny rescaled to float32), |e|<=1e12',
+                 '|q-1|>=5e-5; IEEE totality at float32 (eps/tiny rescaled to float32), |e|<=1e12',
         'thorough': 'as quick plus IEEE totality at float64 with the real constants, |e|<=1e100',
     },
     'outside_claim': ['the rounding-amplification constant of the geometric case in floating point '
@@ -247,7 +247,7 @@ def geometric(job, ex):
     r, ab = sn.lift(res[0]), sn.lift(err[0])
     A = cm.zabs
     box = [A(L) <= 10 ** 15, A(a) <= 10 ** 15, A(a) >= sn.ratval(Fraction(1, 10 ** 15)), A(q) <= 50,
-           A(q) >= sn.ratval(Fraction(1, 50)), A(q - 1) >= sn.ratval(Fraction(1, 50))]
+           A(q) >= sn.ratval(Fraction(1, 50)), A(q - 1) >= sn.ratval(Fraction(1, 20000))]      # q up to 5e-5 from 1
     # the DOCUMENTED guards, restated from the inputs (not read off the code): the three terms are not converged
     # (|difference| > eps * max|term|) and there is no irregular behaviour (|sss*e1| > 1e-4, where for a geometric triple
     # sss*e1 = -(L + a q)/(a q)).  A guard that fires outside this region is a violation.
@@ -263,9 +263,9 @@ def geometric(job, ex):
     job.prove('geometric: |result-L| <= 1e-250 on the Shanks branch', A(r - L) <= tiny, box + [shanks],
               dict(key='C13:geometric-limit-missed', kind='geometric'), prefer=nice)
     d1, d2 = a * (q - 1), a * q * (q - 1)
-    floor = sn.ratval(Fraction(2, 10 ** 17))
+    floor = sn.ratval(Fraction(5, 10 ** 20))
     job.prove('geometric: abserr >= err1+err2', ab >= A(d1) + A(d2), box, dict(key='C13:geometric-abserr-small', kind='geometric'))
-    job.prove('geometric: err1+err2 >= 2e-17 on the box', A(d1) + A(d2) >= floor, box, dict(key='C13:box', kind='geometric'),
+    job.prove('geometric: err1+err2 >= 5e-20 on the box', A(d1) + A(d2) >= floor, box, dict(key='C13:box', kind='geometric'),
               mandatory=True)
     job.twin('geometric: Shanks branch reachable', box + [shanks])
     # numeric spot validation of the trace against the library
